@@ -134,7 +134,7 @@ def grid_cases(ck):
                 for b in W.BOUNDARY:
                     if type(b) is type(cur) and b == cur:
                         continue
-                    if quick and depth > 3 and b not in (None, -1, "x", 1.5):
+                    if quick and depth > 3 and not any(b == t and type(b) is type(t) for t in (None, -1, 0, 0.0, "", [], {}, "x", 1.5, False)):
                         continue
                     out.append((cls, vn, W.where_of(cls, w, path), f"{'/'.join(map(str, path))} := {W.vrepr(b)}",
                                 W.replace_at(w, path, b)))
@@ -165,6 +165,16 @@ def grid_cases(ck):
                         w2 = w + [filler] * (n - len(w))
                         wh = W.where_of(cls, w2, (n - 1,)) if n <= W.max_len(cls) else "length"
                         out.append((cls, vn, wh, f"extended to {n} with {W.vrepr(filler)}", w2))
+    # every KNOWN feature flag of every role (names read from role.py by the translator) with every boundary value,
+    # plus an unknown feature name: roles.<role>.features.<feature> must be a bool or absent
+    for cls, table, head in (("Hello", W.HELLO_ROLES, [1, "realm1"]), ("Welcome", W.WELCOME_ROLES, [2, 7])):
+        for role, feats in table.items():
+            for f in list(feats) + ["zzz_unknown_feature"]:
+                for b in W.BOUNDARY:
+                    out.append((cls, "roles", f"roles.{role}.features", f"roles/{role}/features/{f} := {W.vrepr(b)}",
+                                head + [{"roles": {role: {"features": {f: b}}}}]))
+            out.append((cls, "roles", f"roles.{role}.features", f"roles/{role}: all features True",
+                        head + [{"roles": {role: {"features": {f: True for f in feats}}}}]))
     # the quirks found while reading (always present, named)
     extra = [
         ("Register", "full", "force_reregister", "force_reregister := 1.0", [64, 1, {"force_reregister": 1.0}, "a.b"]),
@@ -298,6 +308,14 @@ def run(ck):
         "and the property text",
     ]
     regenerate_shape(ck)
+    # the role / feature names the grid and the oracle use are the ones role.py has now (fail closed)
+    try:
+        import schema_shape
+        hr, wr = schema_shape.role_tables(vlib.REPO)
+        same = dict(hr) == W.HELLO_ROLES and dict(wr) == W.WELCOME_ROLES
+        ck.obligation("role_tables_agree", same, "" if same else f"role.py now has {hr} / {wr}; harness SPEC table differs")
+    except Exception as e:  # noqa
+        ck.obligation("role_tables_agree", False, f"{type(e).__name__}: {e}")
     broken = ck.coq_props()
     ok, out = vlib.coq_make(["Model/WampMsgRun.vo"])
     if not ok:
